@@ -160,6 +160,19 @@ Balance(st, row) ==
   THEN LET t == TokensOfGm(row, st.gm) IN [net |-> GmToUsd(row, st.gm), gm |-> st.gm, long |-> t.long, short |-> t.short]
   ELSE [net |-> Zero, gm |-> st.gm, long |-> Zero, short |-> Zero]
 
+(* account views (C01 / C03): wallet at the bar's prices plus GM at pool value per share; the market quotes in USD, an
+   account quoted in the long token converts both legs by 1 / longPrice                                                   *)
+WalletValueUsd(st, row) == QAdd(QMul(st.wl, row.lp), QMul(st.ws, row.sp))
+MarketValueUsd(st, row) == IF QGt(st.gm, Zero) THEN GmToUsd(row, st.gm) ELSE Zero
+AccountUsd(st, row) == QAdd(WalletValueUsd(st, row), MarketValueUsd(st, row))
+AccountView(st, row) ==
+  LET a == WalletValueUsd(st, row)
+      m == MarketValueUsd(st, row)
+  IN  [usd  |-> [asset |-> a, market |-> m, net |-> QAdd(a, m)],
+       long |-> [asset |-> QDiv(a, row.lp), market |-> QDiv(m, row.lp), net |-> QDiv(QAdd(a, m), row.lp)]]
+(* C03: a deposit may gain the wallet dust of the balances it debits and what the impact pool credits (capped) *)
+DustAllowUsd(st, ev, row) == IF ev.op = "dep" THEN QMul(Dust, WalletValueUsd(st, row)) ELSE Zero
+
 -----------------------------------------------------------------------------
 (* Property C17, v2 clauses *)
 (* deposit (la, sa), immediately withdraw the minted GM in the same bar: the USD received never exceeds the USD paid
